@@ -108,6 +108,12 @@ impl EdgeList {
     @*/
 }
 
+// ---- AdjacencyList side. Its own module: list_core.inc.rs and edge_list_core.inc.rs each carry a module-level
+// `broadcast use` and Verus allows one per module ----
+mod list_side {
+use super::*;
+//@import units/inc/list_core.inc.rs
+
 //@file src/repr/adjacency_list/mod.rs
 /*@struct name=ArcsIterator @*/
 
@@ -117,3 +123,4 @@ impl<'a> ArcsIterator<'a> {
         true,
     @*/
 }
+} // mod list_side
